@@ -30,8 +30,6 @@ import z3
 PI = z3.Real('pi')
 PI_AXIOMS = [PI > z3.RealVal('3.1415926535897'), PI < z3.RealVal('3.1415926535898')]
 
-EXP = z3.Function('exp', z3.RealSort(), z3.RealSort())
-LOG = z3.Function('log', z3.RealSort(), z3.RealSort())
 POW = z3.Function('pow', z3.RealSort(), z3.RealSort(), z3.RealSort())
 
 
@@ -90,6 +88,8 @@ class Path:
         self.inputs = {}     # declared inputs: name -> (kind, z3 const(s))
         self.uses_uninterpreted = False
         self.rng_calls = 0
+        self.exps = []
+        self.logs = []
         self.rng_limit = None
 
     # ------------------------------------------------------------------ fresh
@@ -202,6 +202,15 @@ class Path:
             if q.denominator == 1 and abs(q.numerator) <= 8:
                 n = q.numerator
                 a_c, a_s = self.trig_atom(atom)
+                if n < 0:
+                    a_s = -a_s
+                    n = -n
+                for _ in range(n):
+                    c_acc, s_acc = add(c_acc, s_acc, a_c, a_s)
+            elif abs(q.numerator) <= 8 and q.denominator <= 12:
+                # q = p/r: the atom is (monomial / r), taken p times
+                a_c, a_s = self.trig_atom(atom * _rv(Fraction(1, q.denominator)))
+                n = q.numerator
                 if n < 0:
                     a_s = -a_s
                     n = -n
@@ -358,9 +367,14 @@ class Path:
         if v is not None and v == 0:
             return _rv(1)
         self.uses_uninterpreted = True
-        t = EXP(a)
-        self.cached('exp', [a], lambda: self.ax.append(t > 0) or t)
-        return t
+
+        def make():
+            e = self.fresh('exp')
+            self.ax.append(e > 0)
+            self.exps.append((a, e))
+            self.defs[str(e)] = ('exp', a)
+            return e
+        return self.cached('exp', [a], make)
 
     def log(self, a):
         a = z3.simplify(a)
@@ -368,7 +382,86 @@ class Path:
         if v is not None and v == 1:
             return _rv(0)
         self.uses_uninterpreted = True
-        return LOG(a)
+
+        def make():
+            l = self.fresh('log')
+            self.logs.append((a, l))
+            self.defs[str(l)] = ('log', a)
+            return l
+        return self.cached('log', [a], make)
+
+    # ------------------------------------------------------- lemma saturation
+    def lemma_instances(self, limit=4000):
+        """Conditional instances of the lemma schemas (L-EXP, L-LOG, L-TRIG congruence) over the
+        exp / log / trig atoms that occur on this path.  exp, log, cos, sin are represented by
+        fresh constants (so the VCs stay in QF_NRA); these instances replace congruence and the
+        functional equations.  Every instance is of the form  (arithmetic condition) => (equation)
+        and is valid for the real functions; the solver decides the conditions."""
+        out = []
+        ex, lg = self.exps, self.logs
+        at = [(a, c, s) for (a, c, s) in self.atoms.values()]
+        one, zero = z3.RealVal(1), z3.RealVal(0)
+        for i, (a, e) in enumerate(ex):
+            out.append(z3.Implies(a == 0, e == 1))
+            out.append(z3.Implies(a > 0, e > 1))
+            out.append(z3.Implies(a < 0, e < 1))
+            out.append(e >= 1 + a)
+            for j, (b, f) in enumerate(ex):
+                if j <= i:
+                    continue
+                out.append(z3.Implies(a == b, e == f))
+                out.append(z3.Implies(a < b, e < f))
+                out.append(z3.Implies(b < a, f < e))
+                out.append(z3.Implies(a + b == 0, e * f == 1))
+                out.append(z3.Implies(a == 2 * b, e == f * f))
+                out.append(z3.Implies(b == 2 * a, f == e * e))
+                out.append(z3.Implies(a == 3 * b, e == f * f * f))
+                out.append(z3.Implies(b == 3 * a, f == e * e * e))
+                for k, (cc, g) in enumerate(ex):
+                    if k == i or k == j:
+                        continue
+                    out.append(z3.Implies(a + b == cc, e * f == g))
+        for i, (a, l) in enumerate(lg):
+            out.append(z3.Implies(a == 1, l == 0))
+            out.append(z3.Implies(a > 1, l > 0))
+            out.append(z3.Implies(z3.And(a > 0, a < 1), l < 0))
+            for (b, e) in ex:
+                out.append(z3.Implies(a == e, l == b))          # log(exp b) = b
+                out.append(z3.Implies(z3.And(a > 0, b == l), e == a))   # exp(log a) = a
+            for j, (b, m) in enumerate(lg):
+                if j <= i:
+                    continue
+                out.append(z3.Implies(a == b, l == m))
+                out.append(z3.Implies(z3.And(a > 0, b > 0, a * b == 1), l + m == 0))
+                out.append(z3.Implies(z3.And(a > 0, b > 0, a < b), l < m))
+                out.append(z3.Implies(z3.And(a > 0, b > 0, b < a), m < l))
+                out.append(z3.Implies(z3.And(b > 0, a == b * b), l == 2 * m))
+                out.append(z3.Implies(z3.And(a > 0, b == a * a), m == 2 * l))
+                for k, (cc, n) in enumerate(lg):
+                    if k == i or k == j:
+                        continue
+                    out.append(z3.Implies(z3.And(a > 0, b > 0, a * b == cc), l + m == n))
+                    out.append(z3.Implies(z3.And(a > 0, b > 0, a == b * cc), l == m + n))
+        for i, (a, c, s_) in enumerate(at):
+            out.append(z3.Implies(a == 0, z3.And(c == 1, s_ == 0)))
+            for j, (b, c2, s2) in enumerate(at):
+                if j <= i:
+                    continue
+                out.append(z3.Implies(a == b, z3.And(c == c2, s_ == s2)))
+                out.append(z3.Implies(a + b == 0, z3.And(c == c2, s_ == -s2)))
+                for (x, cx, sx, y, cy, sy) in ((a, c, s_, b, c2, s2), (b, c2, s2, a, c, s_)):
+                    out.append(z3.Implies(x == 2 * y, z3.And(cx == cy * cy - sy * sy, sx == 2 * sy * cy)))
+                    out.append(z3.Implies(x == 3 * y, z3.And(cx == 4 * cy * cy * cy - 3 * cy,
+                                                             sx == 3 * sy - 4 * sy * sy * sy)))
+                    out.append(z3.Implies(x + 2 * y == 0, z3.And(cx == cy * cy - sy * sy, sx == -2 * sy * cy)))
+                    out.append(z3.Implies(x + 3 * y == 0, z3.And(cx == 4 * cy * cy * cy - 3 * cy,
+                                                                 sx == -(3 * sy - 4 * sy * sy * sy))))
+                if len(at) <= 8:
+                    for k, (d, c3, s3) in enumerate(at):
+                        if k == i or k == j:
+                            continue
+                        out.append(z3.Implies(a + b == d, z3.And(c3 == c * c2 - s_ * s2, s3 == s_ * c2 + c * s2)))
+        return out[:limit]
 
 
 # ---------------------------------------------------------------------------
@@ -394,90 +487,137 @@ def _numeral(e):
 
 
 def _int_times_pi(atom):
-    """atom is (ToReal(int term)) * pi  (in any order) -> the int term"""
-    if z3.is_app_of(atom, z3.Z3_OP_MUL) and atom.num_args() == 2:
-        a, b = atom.arg(0), atom.arg(1)
-        for u, v in ((a, b), (b, a)):
-            if z3.eq(v, PI) and z3.is_app_of(u, z3.Z3_OP_TO_REAL):
-                return u.arg(0)
+    """atom is pi times a product of integer-valued terms (in any order) -> True-ish"""
+    if z3.is_app_of(atom, z3.Z3_OP_MUL):
+        fs = []
+
+        def flat(t):
+            if z3.is_app_of(t, z3.Z3_OP_MUL):
+                for ch in t.children():
+                    flat(ch)
+            else:
+                fs.append(t)
+        flat(atom)
+        pis = [f for f in fs if z3.eq(f, PI)]
+        rest = [f for f in fs if not z3.eq(f, PI)]
+        if len(pis) == 1 and rest and all(z3.is_app_of(f, z3.Z3_OP_TO_REAL) or f.is_int() for f in rest):
+            return rest
     return None
 
 
+def _poly(t, depth=0):
+    """expand t into {monomial: Fraction}; a monomial is a sorted tuple of (atom key, power);
+    atoms (non-polynomial subterms, reciprocals of non-numerals) are collected in _poly.atoms"""
+    v = _numeral(t)
+    if v is not None:
+        return {(): v} if v != 0 else {}
+    if z3.is_app_of(t, z3.Z3_OP_ADD):
+        out = {}
+        for ch in t.children():
+            for m, q in _poly(ch, depth + 1).items():
+                out[m] = out.get(m, 0) + q
+        return {m: q for m, q in out.items() if q != 0}
+    if z3.is_app_of(t, z3.Z3_OP_SUB):
+        ch = t.children()
+        out = dict(_poly(ch[0], depth + 1))
+        for c in ch[1:]:
+            for m, q in _poly(c, depth + 1).items():
+                out[m] = out.get(m, 0) - q
+        return {m: q for m, q in out.items() if q != 0}
+    if z3.is_app_of(t, z3.Z3_OP_UMINUS):
+        return {m: -q for m, q in _poly(t.arg(0), depth + 1).items()}
+    if z3.is_app_of(t, z3.Z3_OP_MUL):
+        out = {(): Fraction(1)}
+        for ch in t.children():
+            out = _poly_mul(out, _poly(ch, depth + 1))
+            if len(out) > 400:
+                raise OverflowError
+        return out
+    if z3.is_app_of(t, z3.Z3_OP_DIV):
+        num, den = t.arg(0), t.arg(1)
+        d = _numeral(den)
+        if d is not None and d != 0:
+            return {m: q / d for m, q in _poly(num, depth + 1).items()}
+        dp = _poly(den, depth + 1)
+        if len(dp) == 1:
+            # reciprocal of a monomial: negative powers
+            (m, q), = dp.items()
+            inv = tuple((k, -p) for k, p in m)
+            return _poly_mul(_poly(num, depth + 1), {inv: 1 / q})
+        key = _atom_key(z3.RealVal(1) / den)
+        return _poly_mul(_poly(num, depth + 1), {((key, 1),): Fraction(1)})
+    if z3.is_app_of(t, z3.Z3_OP_TO_REAL):
+        inner = t.arg(0)
+        if z3.is_app_of(inner, z3.Z3_OP_ADD) or z3.is_app_of(inner, z3.Z3_OP_SUB) or \
+                z3.is_app_of(inner, z3.Z3_OP_UMINUS):
+            pass
+    if z3.is_app_of(t, z3.Z3_OP_POWER):
+        e = _numeral(t.arg(1))
+        if e is not None and e.denominator == 1 and 0 <= e.numerator <= 8:
+            out = {(): Fraction(1)}
+            base = _poly(t.arg(0), depth + 1)
+            for _ in range(e.numerator):
+                out = _poly_mul(out, base)
+            return out
+    return {((_atom_key(t), 1),): Fraction(1)}
+
+
+_ATOMS = {}
+
+
+def _atom_key(t):
+    k = t.sexpr()
+    _ATOMS[k] = t
+    return k
+
+
+def _poly_mul(a, b):
+    out = {}
+    for m1, q1 in a.items():
+        for m2, q2 in b.items():
+            d = dict(m1)
+            for k, p in m2:
+                d[k] = d.get(k, 0) + p
+            m = tuple(sorted((k, p) for k, p in d.items() if p != 0))
+            out[m] = out.get(m, 0) + q1 * q2
+    return {m: q for m, q in out.items() if q != 0}
+
+
+def _mono_expr(m):
+    """z3 term of a monomial, factors in canonical (sorted) order"""
+    num, den = None, None
+    for k, p in m:
+        a = _ATOMS[k]
+        a = _real(a)
+        for _ in range(abs(p)):
+            if p > 0:
+                num = a if num is None else num * a
+            else:
+                den = a if den is None else den * a
+    if num is None:
+        num = z3.RealVal(1)
+    return num if den is None else num / den
+
+
 def lin_decompose(e):
-    """e = sum q_j * atom_j + const, q_j rational; atoms are opaque z3 terms.
-    Returns ({key: (atom, q)}, const)."""
+    """e = sum q_j * atom_j + const, q_j rational.  The atoms are the canonical monomials of the
+    fully expanded polynomial (reciprocals of non-numeral terms count as factors with negative
+    power), so that  k*(d1+d2)/lam  and  k*d1/lam + k*d2/lam  decompose identically.
+    Returns ({key: (atom term, q)}, const)."""
+    try:
+        p = _poly(z3.simplify(e))
+    except (OverflowError, RecursionError):
+        p = {((_atom_key(z3.simplify(e)), 1),): Fraction(1)}
     terms = {}
-    const = [Fraction(0)]
-
-    def add_term(atom, q):
-        if q == 0:
-            return
-        key = atom.sexpr()
-        if key in terms:
-            a, q0 = terms[key]
-            q = q + q0
-            if q == 0:
-                del terms[key]
-                return
-            terms[key] = (a, q)
-        else:
-            terms[key] = (atom, q)
-
-    def walk(t, q):
-        v = _numeral(t)
-        if v is not None:
-            const[0] += q * v
-            return
-        if z3.is_app_of(t, z3.Z3_OP_ADD):
-            for ch in t.children():
-                walk(ch, q)
-            return
-        if z3.is_app_of(t, z3.Z3_OP_SUB):
-            ch = t.children()
-            walk(ch[0], q)
-            for c in ch[1:]:
-                walk(c, -q)
-            return
-        if z3.is_app_of(t, z3.Z3_OP_UMINUS):
-            walk(t.arg(0), -q)
-            return
-        if z3.is_app_of(t, z3.Z3_OP_MUL):
-            num = Fraction(1)
-            rest = []
-            for ch in t.children():
-                v = _numeral(ch)
-                if v is not None:
-                    num *= v
-                else:
-                    rest.append(ch)
-            if not rest:
-                const[0] += q * num
-                return
-            if len(rest) == 1:
-                walk(rest[0], q * num)
-                return
-            # product of several non-numerals: distribute over a sum factor if
-            # exactly one factor is a sum and the others form the atom
-            prod = rest[0]
-            for r in rest[1:]:
-                prod = prod * r
-            add_term(z3.simplify(prod) if False else prod, q * num)
-            return
-        if z3.is_app_of(t, z3.Z3_OP_DIV):
-            d = _numeral(t.arg(1))
-            if d is not None and d != 0:
-                walk(t.arg(0), q / d)
-                return
-        if z3.is_app_of(t, z3.Z3_OP_TO_REAL):
-            inner = t.arg(0)
-            v = _numeral(inner)
-            if v is not None:
-                const[0] += q * v
-                return
-        add_term(t, q)
-
-    walk(z3.simplify(e, som=True), Fraction(1))
-    return terms, const[0]
+    const = Fraction(0)
+    for m, q in p.items():
+        if m == ():
+            const += q
+            continue
+        atom = _mono_expr(m)
+        key = repr(m)
+        terms[key] = (atom, q)
+    return terms, const
 
 
 # ---------------------------------------------------------------------------
@@ -962,17 +1102,48 @@ class SCplx(numbers.Number):
             return NotImplemented
         return SCplx(o.re - self.re, o.im - self.im)
 
+    @staticmethod
+    def _real_operand(o):
+        """z3 real term if o is a real scalar (symbolic or not), else None"""
+        if isinstance(o, SNum):
+            return _real(o.e)
+        if isinstance(o, SCplx):
+            return None
+        if isinstance(o, numbers.Real):
+            try:
+                return _real(_coerce(o))
+            except _Inf:
+                return None
+        return None
+
     def __mul__(self, o):
+        r = self._real_operand(o)
+        if r is not None:
+            return SCplx(self.re * r, self.im * r)
         o = SCplx.of(o)
         if o is None:
             return NotImplemented
+        zero = z3.RealVal(0)
+        if z3.eq(o.im, zero):
+            return SCplx(self.re * o.re, self.im * o.re)
+        if z3.eq(o.re, zero):
+            return SCplx(-(self.im * o.im), self.re * o.im)
+        if z3.eq(self.im, zero):
+            return SCplx(self.re * o.re, self.re * o.im)
+        if z3.eq(self.re, zero):
+            return SCplx(-(self.im * o.im), self.im * o.re)
         return SCplx(self.re * o.re - self.im * o.im, self.re * o.im + self.im * o.re)
     __rmul__ = __mul__
 
     def __truediv__(self, o):
+        r = self._real_operand(o)
+        if r is not None:
+            return SCplx(self.re / r, self.im / r)
         o = SCplx.of(o)
         if o is None:
             return NotImplemented
+        if z3.eq(o.im, z3.RealVal(0)):
+            return SCplx(self.re / o.re, self.im / o.re)
         d = o.re * o.re + o.im * o.im
         return SCplx((self.re * o.re + self.im * o.im) / d, (self.im * o.re - self.re * o.im) / d)
 
@@ -1022,6 +1193,20 @@ class SCplx(numbers.Number):
     def __bool__(self):
         return cur().decide(z3.Or(self.re != 0, self.im != 0))
 
+    def _lex(self, o, strict, greater):
+        # numpy orders complex numbers lexicographically (real part first)
+        o = SCplx.of(o)
+        if o is None:
+            return NotImplemented
+        a, b = (self, o) if greater else (o, self)
+        tail = (a.im > b.im) if strict else (a.im >= b.im)
+        return SBool(z3.Or(a.re > b.re, z3.And(a.re == b.re, tail)))
+
+    def __ge__(self, o): return self._lex(o, False, True)
+    def __gt__(self, o): return self._lex(o, True, True)
+    def __le__(self, o): return self._lex(o, False, False)
+    def __lt__(self, o): return self._lex(o, True, False)
+
     def conjugate(self):
         return SCplx(self.re, -self.im)
     conj = conjugate
@@ -1041,7 +1226,12 @@ class SCplx(numbers.Number):
         return SCplx(m * c, m * s)
 
     def sqrt(self):
-        unsupported("complex sqrt")
+        # principal square root of a complex number with zero imaginary part
+        if not z3.is_true(z3.simplify(self.im == 0)):
+            unsupported("complex sqrt of a value with non-zero imaginary part")
+        p = cur()
+        re = z3.simplify(self.re)
+        return SCplx(p.sqrt(z3.If(re >= 0, re, 0)), p.sqrt(z3.If(re < 0, -re, 0)))
 
     def square(self):
         return self * self
